@@ -463,6 +463,9 @@ class Engine:
             for b in val.__mro__[1:2]:
                 EXC_PARENTS.setdefault(val.__name__, b.__name__)
             return VClass(val.__name__)
+        import functools
+        if val is functools.partial:
+            return VFunc("builtin", "partial")
         if isinstance(val, type):
             return VClass(val.__name__)
         if isinstance(val, dict) and all(isinstance(k, str) for k in val):
@@ -702,8 +705,6 @@ class Engine:
                 else:
                     pos_nodes.append(a)
             kw_nodes = [k.value for k in node.keywords]
-            if any(k.arg is None for k in node.keywords):
-                raise Unsupported("**kwargs at call site")
 
             def after_args(s2, vs):
                 pos = []
@@ -715,7 +716,16 @@ class Engine:
                             raise Unsupported("star-args of non-tuple")
                     else:
                         pos.append(v)
-                kw = {k.arg: v for k, v in zip(node.keywords, vs[len(pos_nodes):])}
+                kw = {}
+                for k, v in zip(node.keywords, vs[len(pos_nodes):]):
+                    if k.arg is None:
+                        # **mapping: only a concrete keyword mapping (the function's own **kwargs passed through)
+                        if isinstance(v, VConc) and isinstance(v.py, dict) and v.py.get("__kwargs__"):
+                            kw.update({a: b for a, b in v.py.items() if a != "__kwargs__"})
+                        else:
+                            raise Unsupported("**mapping at call site")
+                    else:
+                        kw[k.arg] = v
                 return self.call(s2, f, pos, kw, node)
             return self.bind(self.eval_many(pos_nodes + kw_nodes, s, fid), after_args)
         return self.bind(self.eval(node.func, st, fid), after_f)
@@ -755,7 +765,7 @@ class Engine:
             r = self.class_attr(st, v, v.cls, name)
             if r is not None:
                 return r
-            if v.kind in ("list", "dict", "set"):
+            if v.kind in ("list", "dict", "set") or v.cls in getattr(self.reg, "external_classes", ()):
                 return [("ok", st, VFunc("bound", v, name))]
             if default is not None:
                 return [("ok", st, default)]
@@ -1055,10 +1065,17 @@ class Engine:
             vals[n] = v
         if a.vararg is not None:
             vals[a.vararg.arg] = VTuple(pos[len(names):])
+        extra_kw = {}
+        allnames = set(names) | {x.arg for x in a.kwonlyargs}
         for k, v in kw.items():
             if k in vals:
                 raise Unsupported("duplicate argument")
-            vals[k] = v
+            if k not in allnames and a.kwarg is not None:
+                extra_kw[k] = v
+            else:
+                vals[k] = v
+        if a.kwarg is not None:
+            vals[a.kwarg.arg] = VConc(dict(extra_kw, __kwargs__=True))
         outs = [("ok", st, vals)]
         defaults = list(a.defaults)
         dnames = names[len(names) - len(defaults):]
